@@ -161,6 +161,12 @@ func VerifHarness_ForwardingAddress() {
 	}
 	ct := zzConnType()
 	w := zzC19World(raw, ct, mode, zz.Choose(3))
+	own := 1
+	if zz.Bool() {
+		// a profile that already carries a property of that name (from an upstream hop or a plugin)
+		w.pl.profile.Properties = append(w.pl.profile.Properties, profile.Property{Name: "bungeeguard-token", Value: "old"})
+		own = 2
+	}
 	got, _, err := w.address()
 	zz.Assert(err == nil, "building the forwarding address failed")
 	parts := zzSplitNUL(got)
@@ -174,13 +180,16 @@ func VerifHarness_ForwardingAddress() {
 	zz.Assert(len(props) >= 1 && props[0].Name == "textures" && props[0].Value == "v" && props[0].Signature == "s", "the player's own properties are not forwarded first and unchanged")
 	hasToken := false
 	for _, p := range props {
-		if p.Name == "bungeeguard-token" {
-			zz.Assert(p.Value == "s3cr3t" && !hasToken, "the BungeeGuard token property is wrong or duplicated")
+		if p.Name == "bungeeguard-token" && p.Value == "s3cr3t" {
 			hasToken = true
 		}
 	}
-	zz.Assert(hasToken == guard, "the BungeeGuard token property is missing, or present without BungeeGuard forwarding")
-	zz.Assert(len(w.pl.profile.Properties) == 1, "building the address modified the player's profile")
+	zz.Assert(hasToken == guard, "the BungeeGuard token property with the configured secret is missing, or present without BungeeGuard forwarding")
+	if guard {
+		last := props[len(props)-1]
+		zz.Assert(last.Name == "bungeeguard-token" && last.Value == "s3cr3t", "the configured BungeeGuard token is not appended to the property list")
+	}
+	zz.Assert(len(w.pl.profile.Properties) == own, "building the address modified the player's profile")
 	if guard {
 		zz.Reach("bungeeguard")
 	} else {
